@@ -147,6 +147,16 @@ pub fn run(ctx: &Ctx) -> i32 {
             }
         });
     }
+    // prefixes x^i y^j that fold into shared trie states under repetition conversion
+    {
+        let n = if ctx.thorough { 100000 } else { 5000 };
+        par_for(&ctx.run, n, |i, st| {
+            let mut rng = Rng::new(seed, 0x52_0000 + i as u64);
+            let tcs = gen::merged_prefix_family(&mut rng, if i % 2 == 0 { &["a", "b"] } else { &["a", "b", "c"] });
+            st.count("merged_prefix_families");
+            check_case(ctx, st, &tcs, Settings::new(REP));
+        });
+    }
     // random repeat-rich families x other settings
     let n = if ctx.thorough { 300_000 } else { 12_000 };
     let names = ["ab", "abc", "meta", "graph", "astral", "classes", "case", "ws", "clusters", "tokens"];
